@@ -57,7 +57,7 @@ class model(base.model):
             for c in range(len(pL[i])):
                 #1st order Upwind scheme
                 vhalf = (pL[i][c]+pR[i][c])/2
-                if vhalf > 0:
+                if vhalf >= 0: # tie: |uL| = |uR|, both fluxes coincide
                     nflux[i][c] = pL[i][c]**2/2
                 elif vhalf < 0:
                     nflux[i][c] = pR[i][c]**2/2
